@@ -6,6 +6,9 @@ import Drivers.Common
 /-! `vm_c05`: line protocol over `Model.Exc` / `Spec.Exc` / `Model.Cli` / `Spec.Cli`.
 
   run <TAB> fixed|pinned|g<0|1>r<0|1> <TAB> <graph> <TAB> <prog>     → <final>|<trace>
+  iter <TAB> <cfg> <TAB> <graph> <TAB> <prog>                         → <final>|<trace>   (prog's top level must be ONE loop `l<k>{ … }`:
+                                                                         `Model.Exc.runLoop`, the body run once and repeated — equal to
+                                                                         `run` by C05_long_run, linear instead of quadratic in k)
   spec <TAB> <graph> <TAB> <prog>                                     → <final>|<trace>   (Spec.Exc with the closure subtype test)
   cli <TAB> fixed|pinned <TAB> <input>                                → code=<n> diag=<0|1> out=<m,m,…>
   clispec <TAB> <input>                                               → fail=<0|1> diag=<0|1> out=<m,m,…>
@@ -204,6 +207,10 @@ def handle (line : String) : String :=
   | ["run", cfg, g, p] =>
     match parseCfg cfg, parseGraph g, parseProg p with
     | some cfg, some g, some p => showRun (Model.Exc.run g cfg p)
+    | _, _, _ => "bad-op"
+  | ["iter", cfg, g, p] =>
+    match parseCfg cfg, parseGraph g, parseProg p with
+    | some cfg, some g, some ⟨fns, .cons (.loop k body) .nil, d⟩ => showRun (Model.Exc.runLoop g cfg fns body k d)
     | _, _, _ => "bad-op"
   | ["spec", g, p] =>
     match parseGraph g, parseProg p with
